@@ -61,6 +61,8 @@ mod ciphertexts;
 mod circuits;
 mod eval;
 mod key;
+#[cfg(feature = "verif-hooks")]
+pub mod verif_circuits;
 
 pub use bdd_1w_to_1w::*;
 pub use bdd_2w_to_1w::*;
